@@ -1941,7 +1941,11 @@ class MacroExpander:
 
                 if isinstance(macro_lookup, MacroFunction):
                     paren = self.peek_tok()
-                    if not paren or paren.token != "(":
+                    if (
+                        not paren
+                        or paren.token != "("
+                        or not isinstance(paren, (Punctuator, Operator))
+                    ):
                         self.parser_stack[-1].pos -= 1
                         self.replace_tok(ctok)
                         continue
@@ -1953,14 +1957,17 @@ class MacroExpander:
 
                     while True:
                         tok = self.consume_tok()
-                        if tok.token == "," and open_paren_count == 1:
+                        # Only punctuators separate and delimit arguments:
+                        # the content of a literal ("," or '(') does not.
+                        delim = isinstance(tok, (Punctuator, Operator))
+                        if delim and tok.token == "," and open_paren_count == 1:
                             args.append(current_arg)
                             current_arg = []
                             continue
 
-                        if tok.token == "(":
+                        if delim and tok.token == "(":
                             open_paren_count += 1
-                        elif tok.token == ")":
+                        elif delim and tok.token == ")":
                             open_paren_count -= 1
                             if open_paren_count == 0:
                                 args.append(current_arg)
